@@ -133,4 +133,14 @@ theorem pkg_rejects_absolute (path : String) (h : isAbs path = true) : pkgPathOk
 example : pkgPathOk "a/b.yaml" = true ∧ pkgPathOk "../x.yaml" = false ∧ pkgPathOk "a/../../x.yaml" = false ∧
     pkgPathOk "/etc/passwd" = false ∧ pkgPathOk "a/../b.yaml" = true ∧ pkgPathOk "a..b.yaml" = false := by decide
 
+/-- the read-writer deletes `files(read) \\ files(written)`: as long as the paths recorded at READ time are the ones
+    the reader stamped (relative, inside the package: `pkgPathOk`), every deletion is below the package directory —
+    whatever annotations the written resources carry.  (The hypothesis is what `OmitReaderAnnotations` must not defeat:
+    seeded change C13b forwards that option and the oracle's read-write mode catches it.) -/
+theorem pkg_delete_confined (pkg : List String) (files newFiles : List String)
+    (h : ∀ f ∈ files, pkgPathOk f = true) :
+    ∀ f ∈ files.filter (fun x => !newFiles.contains x), pkg <+: pkgTarget pkg f := by
+  intro f hf
+  exact pkg_write_confined pkg f (h f (List.mem_filter.mp hf).1)
+
 end Kust.C13
